@@ -33,6 +33,14 @@ impl NoSimd {
     }
 }
 
+#[cfg(feature = "verif-hooks")]
+impl NoSimd {
+    /// Verification builds only: engine over the given tables.
+    pub fn verif_with_tables(mul16: &'static Mul16, skew: &'static Skew) -> Self {
+        Self { mul16, skew }
+    }
+}
+
 impl Engine for NoSimd {
     fn fft(
         &self,
